@@ -115,7 +115,7 @@ def cell_attrs(name):
     """abstract attributes of a crystal of the table (fields of obj.cell in SaveLoad.tla)"""
     cr = CRYSTALS[name]
     return dict(snfS=bool(cr.get("snfS")), fragile=bool(cr.get("fragile")),
-                sid=bool(np.array_equal(np.array(cr["smat"]), np.eye(3, dtype=int))))
+                sid=bool(np.array_equal(np.array(cr["smat"]), np.eye(3, dtype=int))), allIndep=(name not in ("p4", "fe2")))  # no primitive atom is the image of another under the space group
 
 
 def new_phonopy(cfgobj, quiet=True, **override):
@@ -701,6 +701,8 @@ def project(world, ph2, err, wr=None):
         name, msg = type(err).__name__, str(err)
         if name == "ForceCalculatorRequiredError":
             why = "solver"
+        elif name == "ValueError" and "Input forces are not enough" in msg:
+            why = "dataset"
         elif "TrimmedCell" in msg or "primitive cell is failed" in msg or "PRIMITIVE_AXIS" in msg:
             why = "symmetry"
         elif any((cfg["args"].get("cells") or {}).get(k) for k in ("ucfile", "scfile")):
